@@ -14,7 +14,7 @@
 """
 import os
 
-from . import core, zz, extract
+from . import core, flow, zz, extract
 from .api import Api
 
 LEVEL = "proof"
@@ -200,6 +200,9 @@ def run(chk, ctx):
         chk.count("suppression_sites_examined", n)
         chk.obligations.append(("Z5.no-drop-suppression", name, hits == 0))
 
+        # Z7
+        raw_copy_rules(chk, F, set(S) | set(wr), tag)
+
         # Z6 explicit wipe covers every storage-owning field of the key struct
         key_adt, wipe_fn = find_wipe(F, A, S)
         cov = zz.coverage(F, wipe_fn, key_adt)
@@ -227,6 +230,151 @@ def run(chk, ctx):
     chk.floor("secret_types", 7)
     chk.floor("leaf_holders", 2)
     chk.floor("fields_examined", 20)
+
+
+def raw_secret(F, f, operand, secret, depth=0, seen=None):
+    """Do the *raw bytes* of this operand come from a value of a secret type - through moves, borrows, views, slicing and
+    copies into byte buffers only (hashing or any other computation ends the chain)?  Returns a description or None."""
+    seen = seen if seen is not None else set()
+    p = core.op_place(operand)
+    if p is None or depth > 14:
+        return None
+    l = p["local"]
+    if (f.path, l, len(p["proj"])) in seen:
+        return None
+    seen.add((f.path, l, len(p["proj"])))
+
+    def ty_secret(ty):
+        t = ty
+        while t.get("k") == "ref":
+            t = t["ty"]
+        return t.get("k") == "adt" and t.get("path") in secret
+
+    def field_secret(base_ty, proj):
+        """A field of a secret struct carries secret bytes iff the field's own type is secret (wrapper / seed ...); identifiers and
+        parameters stored next to the secret (`#[zeroize(skip)]`) are public."""
+        t = base_ty
+        while t.get("k") == "ref":
+            t = t["ty"]
+        flds = [e for e in proj if e["k"] == "field"]
+        if not flds:
+            return True
+        a = F.adts.get(t.get("path"))
+        if not a:
+            return True
+        for fl in zz.fields_of(F, t["path"]):
+            if fl["name"] == flds[0].get("name"):
+                ft = fl["ty"]
+                return ft.get("k") == "adt" and ft.get("path") in secret
+        return True
+
+    if ty_secret(f.locals[l]["ty"]):
+        if field_secret(f.locals[l]["ty"], p["proj"]):
+            return "%s: value of secret type %s" % (f.path, f.locals[l]["ty"]["s"])
+        return None
+    ds = [d for d in f.defs_of(l) if not f.blocks[d[0]]["cleanup"]]
+    whole = [d for d in ds if (d[1] == "term" and not d[2]["dest"]["proj"]) or (d[1] != "term" and not d[2]["place"]["proj"])]
+    # a byte buffer: anything copied into it
+    s_ty = f.locals[l]["ty"]["s"]
+    if s_ty.startswith("[u8;") or s_ty.startswith("tinyvec::arrayvec::ArrayVec<[u8;"):
+        for b, t in f.calls():
+            if f.blocks[b]["cleanup"]:
+                continue
+            last = core.strip_generics(core.callee_path(t) or "").rsplit("::", 1)[-1]
+            if last in ("copy_from_slice", "clone_from_slice", "extend_from_slice", "push") and len(t["args"]) == 2 and flow.resolve_owner(f, t["args"][0], want_mut=True) == l:
+                r = raw_secret(F, f, t["args"][1], secret, depth + 1, seen)
+                if r:
+                    return r
+    for b, i, d in whole:
+        if i == "term":
+            last = core.strip_generics(core.callee_path(d) or "").rsplit("::", 1)[-1]
+            tps = F.call_targets(f, d)
+            dty = f.locals[l]["ty"]
+            is_view = last in ("deref", "deref_mut", "as_slice", "as_mut_slice", "as_ref", "as_mut", "borrow", "clone", "index", "index_mut", "get", "get_mut", "iter", "into", "from", "to_owned", "try_into", "try_from", "unwrap", "expect")
+            local_view = bool(tps) and tps[0] in F.fns and dty.get("k") == "ref" and len(d["args"]) >= 1
+            if local_view and tps and tps[0] in F.fns:
+                from . import expr as _expr
+                gf_ = _expr.trivial_getter(F.fns[tps[0]])
+                a0 = core.op_place(d["args"][0])
+                if gf_ is not None and a0 is not None:
+                    bt = f.locals[a0["local"]]["ty"]
+                    if ty_secret(bt) and not field_secret(bt, [{"k": "field", "name": gf_}]):
+                        continue  # getter of a public field of a secret struct
+            if (is_view or local_view) and d["args"]:
+                r = raw_secret(F, f, d["args"][0], secret, depth + 1, seen)
+                if r:
+                    return r
+        elif d["k"] == "assign":
+            rv = d["rv"]
+            if rv["k"] in ("use", "cast"):
+                r = raw_secret(F, f, rv["op"], secret, depth + 1, seen)
+                if r:
+                    return r
+            elif rv["k"] in ("ref", "rawptr"):
+                pl = rv["place"]
+                base_ty = f.locals[pl["local"]]["ty"]
+                if ty_secret(base_ty):
+                    if field_secret(base_ty, pl["proj"]):
+                        return "%s: field of secret type %s" % (f.path, base_ty["s"])
+                    continue
+                r = raw_secret(F, f, {"k": "copy", "place": {"local": pl["local"], "proj": [], "ty": ""}}, secret, depth + 1, seen)
+                if r:
+                    return r
+            elif rv["k"] == "aggregate" and rv.get("agg") in ("array", "tuple"):
+                for o in rv["ops"]:
+                    r = raw_secret(F, f, o, secret, depth + 1, seen)
+                    if r:
+                        return r
+    return None
+
+
+def raw_copy_rules(chk, F, secret, tag):
+    """Z7: the raw bytes of a secret value are never stored in a field of a struct that does not wipe itself (locals that
+    hold such bytes transiently are observations; a struct field outlives the statement that filled it)."""
+    def storage(ty):
+        s = ty.get("s", "")
+        return s.startswith("[u8;") or s.startswith("tinyvec::arrayvec::ArrayVec<[u8;")
+    plain = {}
+    for p, a in F.adts.items():
+        if p in secret or a["span"].get("exp"):
+            continue
+        flds = [fl["name"] for fl in zz.fields_of(F, p) if storage(fl["ty"])]
+        if flds:
+            plain[p] = flds
+    n = 0
+    for fp, f in sorted(F.fns.items()):
+        if f.span.get("exp"):
+            continue
+        for b, i, s in f.iter_stmts():
+            if s["k"] != "assign" or f.blocks[b]["cleanup"]:
+                continue
+            rv = s["rv"]
+            if rv["k"] == "aggregate" and rv.get("agg") == "adt" and rv.get("path") in plain:
+                for fname, o in zip(rv["fields"], rv["ops"]):
+                    if fname in plain[rv["path"]]:
+                        n += 1
+                        why = raw_secret(F, f, o, secret)
+                        chk.ob("Z7.no-raw-secret-bytes-in-a-non-wiping-struct", "%s.%s<-%s%s" % (rv["path"], fname, f.key, tag), why is None,
+                               "%s builds a %s whose field `%s` holds a raw copy of secret bytes (%s); %s does not wipe itself on drop, so the bytes outlive the value"
+                               % (fp, rv["path"], fname, why, rv["path"]), where=f.loc(b))
+        for b, t in f.calls():
+            if f.blocks[b]["cleanup"]:
+                continue
+            last = core.strip_generics(core.callee_path(t) or "").rsplit("::", 1)[-1]
+            if last not in ("copy_from_slice", "clone_from_slice", "extend_from_slice", "push") or len(t["args"]) != 2:
+                continue
+            op = flow.resolve_owner_path(f, t["args"][0], want_mut=True)
+            if op is None or not op[1]:
+                continue
+            base_ty = f.locals[op[0]]["ty"]
+            while base_ty.get("k") == "ref":
+                base_ty = base_ty["ty"]
+            if base_ty.get("k") == "adt" and base_ty.get("path") in plain and op[1][-1] in plain[base_ty["path"]]:
+                n += 1
+                why = raw_secret(F, f, t["args"][1], secret)
+                chk.ob("Z7.no-raw-secret-bytes-in-a-non-wiping-struct", "%s.%s<-%s%s" % (base_ty["path"], op[1][-1], f.key, tag), why is None,
+                       "%s copies raw secret bytes (%s) into field `%s` of %s, which does not wipe itself on drop" % (fp, why, op[1][-1], base_ty["path"]), where=f.loc(b))
+    chk.count("plain_byte_struct_writes_examined", n)
 
 
 def find_wipe(F, A, S):
